@@ -85,9 +85,22 @@ def inj_dup_enum(rng, d):
         d.order.insert(0, ('e', 0))
     i = rng.randrange(len(d.enums))
     a = d.enums[i]
+    between = rng.random() < 0.5
+    if between:
+        # an enum with the same bare name in another schema is legal; put it between the two clashing copies
+        d.enums.append(am.Enum('other_' + a.schema, a.name, [am.EnumItem('between_item')]))
+        mid = ('e', len(d.enums) - 1)
     d.enums.append(am.Enum(a.schema, a.name, [am.EnumItem('other_item')]))
-    _pos(rng, d, ('e', len(d.enums) - 1), ('e', i))
-    return DBV, {}
+    dup = ('e', len(d.enums) - 1)
+    if between:
+        k = d.order.index(('e', i))
+        if rng.random() < 0.5:
+            d.order[k + 1:k + 1] = [mid, dup]
+        else:
+            d.order[k:k] = [dup, mid]
+    else:
+        _pos(rng, d, dup, ('e', i))
+    return DBV, {'between': between}
 
 
 def inj_dup_group(rng, d):
@@ -180,7 +193,20 @@ def inj_empty_table(rng, d):
 
 
 def _ghost(d, rng):
-    g = _simple_table(rng.choice(['public', 'public', 'sg']), f'ghost{rng.randrange(10**6)}', 'g')
+    """a table that is never declared (not in d.order).  Half of the time it borrows the bare name and the
+    column names of a declared table but lives in a schema that does not exist, so that a lookup which
+    forgets the schema would bind it to that table."""
+    if rng.random() < 0.5:
+        real = rng.choice([t for k_, i_ in d.order if k_ == 't' for t in [d.tables[i_]]])
+        g = am.Table(f'nosuchschema{rng.randrange(10**6)}', real.name)
+        g.columns = [am.Column(c.name, am.ColType('plain', 'int')) for c in real.columns]
+        # make sure the real table has been looked up before (a group over it, declared first)
+        if rng.random() < 0.7:
+            ri = d.tables.index(real)
+            d.groups.append(am.Group(f'gpre{rng.randrange(10**6)}', [ri]))
+            d.order.insert(0, ('g', len(d.groups) - 1))
+    else:
+        g = _simple_table(rng.choice(['public', 'public', 'sg']), f'ghost{rng.randrange(10**6)}', 'g')
     d.tables.append(g)          # NOT in d.order: never declared
     return len(d.tables) - 1
 
